@@ -1216,9 +1216,7 @@ def call_native(I, fn, args, kwargs):
             V.REG.register(fn, [k for k in fn.keys if k != "loc"])
         _used("graphql-core Node(**kwargs): one attribute per key (None when not passed), lists stored as tuples")
         attrs = {}
-        for k in fn.keys:
-            if k == "loc":
-                continue
+        for k in V.REG.info(fn).fields:      # the registered keys (contracts may register the subset they speak about)
             v = kwargs.get(k)
             if isinstance(v, MList):
                 v = SV(V.VTuple(V.vl(v.t)))
